@@ -8,6 +8,12 @@ TEXTS = {
         note="Trusted: the mapping's Index() for locating bins in the non-triviality rule only (accuracy is judged on values), big.Rat arithmetic. Index window of dense/paginated sketches capped at 2^14 bins by memory. Sampling: a violation confined to one specific (alpha, bin) away from edges could be missed.",
         technique="property-based testing (rapid) against an exact sorted-multiset model with exact rational ranks",
     ),
+    'C02': dict(
+        text="Generated-input search with two independent oracles: an exact index->weight model of the whole input and a metamorphic twin (one sketch fed everything). Inputs are partitioned over 1..6 sketches with independently drawn store kinds (incl. empty and recycled parts) and merged along generated trees, each edge by MergeWith or Encode+DecodeAndMergeWith; root, twin and model must agree bit for bit on bins, zero weight, count, extremes, store rank lookups and probe quantiles; each merge must leave its argument unchanged.",
+        design_ref="DESIGN.md §2 C02",
+        note="Trusted: model.Map; exactness budget (dyadic weights). Non-collapsing stores only (as the property states).",
+        technique="property-based testing (rapid): metamorphic twin + exact model over generated partitions and merge trees",
+    ),
     'C03': dict(
         text="Generated-input search with a validity oracle per value: for mappings of all three kinds built from alpha in [1e-6,0.99] or rebuilt from (gamma, arbitrary offset up to +-2^30), ~70 values per mapping concentrated where rounding matters (bin edges +-4 ulps incl. the 10 lowest/highest indexes, binade edges, both range ends, log-uniform fill) are checked for alpha-accuracy of Value(Index(v)), int32 range, containment between consecutive lower bounds and monotonicity over adjacent-float / few-ulp / adjacent-bin / far pairs; the reported accuracy must equal the configured one. Found and drove the repair of finding F7.",
         design_ref="DESIGN.md §2 C03, §1.1",
@@ -37,6 +43,24 @@ TEXTS = {
         design_ref="DESIGN.md §2 C20",
         note="Trusted: sort.Float64s for the model, Shewchuk exact summation for the reference sum. Both readings of floor(q*(n-1)) (exact / binary64) accepted.",
         technique="stateful model-based property testing (rapid state machine) against a sorted multiset",
+    ),
+    'C11': dict(
+        text="Generated-input search against an exact weighted reference: (value, dyadic weight) multisets with total weight from 2^-10 up (40% below 1, by light adds or by scaling down), every store/mapping kind; each answer must be within alpha of an absorbed value whose exact cumulative-weight interval lies within one unit of the exact rank q*(W-1), inside [min,max] and never of the sign of an empty side. Re-detects repaired finding F4.",
+        design_ref="DESIGN.md §2 C11",
+        note="Trusted: exact rational rank (big.Rat), sorted entry list. The 'one unit' window is what the rank arithmetic can guarantee; nothing tighter is asserted.",
+        technique="property-based testing (rapid) against an exact cumulative-weight model",
+    ),
+    'C12': dict(
+        text="Generated-input search against an exact model for histories (adds, merges, decode-merges, copies, clears, encode/decode) with generator-forced data shapes (all-negative, all-zero, zero+negative, single value, sub-minimum only, mixed) on all five store kinds: count/zero count/emptiness exact, min/max equal to the extreme model bin's representative and alpha-close to the true extremes, monotone quantiles inside [min,max], batch == singles, invalid batch refused, alpha-accurate sum for same-signed data, iteration yields exactly the model's positive-weight entries and stops after exactly k callbacks for every k.",
+        design_ref="DESIGN.md §2 C12",
+        note="Trusted: skModel (per-side maps + value list), fold model for collapsing stores. Accuracy w.r.t. raw values only asserted when no collapsing store took part.",
+        technique="property-based testing (rapid) with shape-forcing generators against an exact model and coherence predicates",
+    ),
+    'C13': dict(
+        text="Generated-input search over invalid and boundary inputs: a sketch in a generated reachable state receives one call from the documented-invalid and boundary classes (adds, quantiles, merges with mismatching mappings, non-positive reweights, constructors, NewBin, summary statistics constructors); the documented error (or nil for valid input) is required and the full observation before and after a refusal must be identical. Re-detects repaired finding F5.",
+        design_ref="DESIGN.md §2 C13",
+        note="Trusted: obs.Sketch observer. The grey corner AddWithCount(invalid, 0) on the exact variant is not asserted either way.",
+        technique="property-based testing (rapid) with a contract-derived expected outcome and before/after observation equality",
     ),
     'C18': dict(
         text="Generated-input search: seeded rapid generators of uint64/int64/float64 values (bit-length classes, 2^k+-d, non-finite, subnormal, +1-rounding) and random byte strings, checked against an independent reference codec written from the format documentation (byte-for-byte encodings, sizes, exact consumption with trailing bytes, EOF on every strict prefix without consuming), plus complete enumeration of all byte strings of length <= 2 per decoder and all 256 flags; thorough adds a coverage-guided native fuzz campaign. Exploration is the right level: the property is a for-all over bit patterns with an executable differential oracle.",
